@@ -92,12 +92,25 @@ fn differs(seed: u64, index: u32, path: &str, gid: u32, ppem: u32, hinting: Opti
     let f = vf_c03::synth::generate(seed, index);
     std::fs::write(path, &f.bytes).unwrap();
     let mut font = Font::new(path).unwrap();
-    let Some((mut ft, mut sk)) = font.instantiate(&InstanceOptions::new(0, ppem, &[], hinting)) else { return false };
-    let mut p1: Vec<PathElement> = vec![];
-    let mut p2: Vec<PathElement> = vec![];
-    let a1 = ft.outline(GlyphId::new(gid), &mut RegularizingPen::new(&mut p1, ppem != 0));
-    let a2 = sk.outline(GlyphId::new(gid), &mut RegularizingPen::new(&mut p2, ppem != 0));
-    a1.is_some() && a2.is_ok() && p1 != p2
+    // PPEM_RANGE=lo-hi: a difference at any size in the range counts (threshold-dependent cases)
+    let sizes: Vec<u32> = match std::env::var("PPEM_RANGE").ok().and_then(|r| r.split_once('-').map(|(a, b)| (a.parse::<u32>().unwrap(), b.parse::<u32>().unwrap()))) {
+        Some((lo, hi)) => (lo..=hi).collect(),
+        None => vec![ppem],
+    };
+    for ppem in sizes {
+        let Some((mut ft, mut sk)) = font.instantiate(&InstanceOptions::new(0, ppem, &[], hinting)) else { continue };
+        let mut p1: Vec<PathElement> = vec![];
+        let mut p2: Vec<PathElement> = vec![];
+        let a1 = ft.outline(GlyphId::new(gid), &mut RegularizingPen::new(&mut p1, ppem != 0));
+        let a2 = sk.outline(GlyphId::new(gid), &mut RegularizingPen::new(&mut p2, ppem != 0));
+        if a1.is_some() && a2.is_ok() && p1 != p2 {
+            if std::env::var("PPEM_RANGE_VERBOSE").is_ok() {
+                println!("differs at ppem {ppem}");
+            }
+            return true;
+        }
+    }
+    false
 }
 
 fn main() {
